@@ -69,6 +69,20 @@ func reprEscape(s string, delim byte, w io.Writer) {
 }
 
 func reprString(str String, w io.Writer) {
+	if str.holes > 0 {
+		// A string literal cannot express a hole.
+		fu.WriteString(w, "{")
+		n := 0
+		for i, c := range str.s {
+			if c >= 0 {
+				writeSep(w, n, ", ")
+				fu.Fprintf(w, "(@: %d, %s: %d)", str.offset+i, StringCharAttr, c)
+				n++
+			}
+		}
+		fu.WriteString(w, "}")
+		return
+	}
 	reprOffset(str.offset, w)
 	reprStr(string(str.s), w)
 }
